@@ -564,3 +564,51 @@ func bytesContains(h, n []byte) bool {
 	}
 	return false
 }
+
+// ---- merkledag.ProtoNode (legacy protobuf codec): an opaque container of its data bytes ----
+
+func (in *Interp) protoData(p Value) *Value {
+	k := p.R.(*Value)
+	if d, ok := in.side[k].(*Value); ok {
+		return d
+	}
+	d := &Value{K: KSlice}
+	in.side[k] = d
+	return d
+}
+
+func init() {
+	const md = "github.com/ipfs/go-merkledag."
+	ix := map[string]ixFn{
+		"(*" + md + "ProtoNode).SetData": func(in *Interp, fr *Frame, a []Value) (Value, bool) {
+			*in.protoData(a[0]) = a[1]
+			return Value{}, true
+		},
+		"(*" + md + "ProtoNode).Data": func(in *Interp, fr *Frame, a []Value) (Value, bool) {
+			return *in.protoData(a[0]), true
+		},
+		"(*" + md + "ProtoNode).RawData": func(in *Interp, fr *Frame, a []Value) (Value, bool) {
+			return opqBytes(ot("pbraw", in.msgArg(*in.protoData(a[0])))), true
+		},
+		"(*" + md + "ProtoNode).Cid": func(in *Interp, fr *Frame, a []Value) (Value, bool) {
+			return in.cidOfDoc(ot("pbnode", in.msgArg(*in.protoData(a[0])))), true
+		},
+		"(*" + md + "ProtoNode).Links": func(in *Interp, fr *Frame, a []Value) (Value, bool) {
+			return Value{K: KSlice}, true
+		},
+		md + "DecodeProtobuf": func(in *Interp, fr *Frame, a []Value) (Value, bool) {
+			t, ok := opaqueOfBytes(a[0])
+			if !ok || t.Ctor != "pbraw" {
+				return tuple(Value{K: KPtr}, in.newErr("merkledag: not a protobuf node", Value{})), true
+			}
+			p := new(Value)
+			*p = zero(in.namedType("github.com/ipfs/go-merkledag", "ProtoNode"))
+			node := Value{K: KPtr, R: p}
+			*in.protoData(node) = in.unmsg(t.Args[0])
+			return tuple(node, nilErr), true
+		},
+	}
+	for k, f := range ix {
+		intrinsics[k] = f
+	}
+}
